@@ -59,13 +59,14 @@ def cond_py(name, variant=0):
     if name == "not_none": return ["not_none", "skip_none"][variant % 2]
     if name == "truthy": return lambda r, a, k, key=None: bool(r) if _args_ok(a, k, key) else not bool(r)
     if name == "nonbool": return lambda r, a, k, key=None: 1 if r else 0
-    if name == "with_exc": return with_exceptions(ExcA)
-    return only_exceptions(ExcA)
+    if name == "with_exc": return with_exceptions() if variant % 3 == 0 else with_exceptions(ExcA)      # no class given = every Exception
+    return only_exceptions() if variant % 3 == 0 else only_exceptions(ExcA)
 
 
-def cond_coq(name):
+def cond_coq(name, variant=1):
+    listed = [Z(1), Z(2), Z(3)] if variant % 3 == 0 else [Z(1), Z(3)]      # class ids that are instances of the listed classes (4 = CancelledError is no Exception)
     return {"all": C("CAll"), "not_none": C("CNotNone"), "truthy": C("CTruthy"), "nonbool": C("CNonBool"),
-            "with_exc": C("CWithExc", [Z(1), Z(3)]), "only_exc": C("COnlyExc", [Z(1), Z(3)])}[name]     # class ids that are instances of ExcA
+            "with_exc": C("CWithExc", listed), "only_exc": C("COnlyExc", listed)}[name]
 
 
 def _td(ticks):
@@ -153,10 +154,22 @@ def _san(v):
     """a value the scripts never produce (e.g. an exception object handed back as a result) is reported by its type name"""
     if v is None or isinstance(v, (bool, int, str)) or (isinstance(v, list) and all(isinstance(x, int) for x in v)):
         return v
+    if isinstance(v, bytes):
+        return {"b": v.decode("latin1")}
     return "<" + type(v).__name__ + ">"
 
 
+def _script(case):
+    """the case's script; under a condition that selects EVERY exception class, a returned exception object would be selected too
+    (and raised on the next call - what the pinned code does with such a value, outside the property): those items run as plain values"""
+    if case.get("cond") in ("with_exc", "only_exc") and case.get("cond_variant", 1) % 3 == 0:
+        return ["fresh" if x == "retexc" else x for x in case["script"]]
+    return case["script"]
+
+
 def _pyval(x, n):
+    if x == "" and n % 2:
+        return b""      # the empty bytes value: a result like any other
     return 100 + n if x == "fresh" else x
 
 
@@ -183,7 +196,7 @@ def run_impl(case):
         if sp == "callable_result" and kind == "simple" and None not in case["script"]:
             sp = "callable_result_not_none"      # the callable is handed the real result of every store: a returned value or the raised exception, never None
         ttl = ttl_py(sp, round(case["secs"] * 16))
-        cond = cond_py(case["cond"], case.get("cond_variant", 0))
+        cond = cond_py(case["cond"], case.get("cond_variant", 1))
         CUR.clear()
         await asyncio.sleep(TICK)
         if kind == "simple":
@@ -191,7 +204,7 @@ def run_impl(case):
             async def f(x, y=0):
                 i = ex["n"]
                 ex["n"] += 1
-                s = case["script"][i]
+                s = _script(case)[i]
                 if s == "raiseA": raise ExcA()
                 if s == "raiseB": raise ExcB()
                 if s == "raiseA1": raise ExcA1()
@@ -216,7 +229,7 @@ def run_impl(case):
                 except asyncio.CancelledError: res = ["exc", 4]
                 except Exception as e:  # noqa
                     res = ["exc", 99]
-                steps.append({"t": round((vclock.Clock.now - vclock.BASE) / TICK), "key": ai, "script": case["script"][before], "i": before,
+                steps.append({"t": round((vclock.Clock.now - vclock.BASE) / TICK), "key": ai, "script": _script(case)[before], "i": before,
                               "res": res, "executed": ex["n"] > before})
         else:
             @cache.iterator(ttl=ttl, condition=cond)
@@ -261,6 +274,7 @@ def _outcome(s, i):
 def _val(v):
     if v == "<ExcB>": return C("VOpq", Z(2002))      # an exception object received as an ordinary result
     if isinstance(v, list): return C("VZs", [Z(x) for x in v])
+    if isinstance(v, dict) and "b" in v: return val_to_coq(v["b"].encode("latin1"))
     return val_to_coq(v)
 
 
@@ -278,7 +292,7 @@ def to_coq(case, obs):
             h.append(((Z(st["t"]), S("k%d" % st["key"])), _outcome(st["script"], st["i"])))
             r = st["res"]
             o.append((C("OVal", _val(r[1])) if r[0] == "val" else C("OExc", Z(r[1])), bool(st["executed"])))
-        return C("CSimple", T, cond_coq(case["cond"]), h, o)
+        return C("CSimple", T, cond_coq(case["cond"], case.get("cond_variant", 1)), h, o)
     h, o = [], []
     for st in obs["steps"]:
         run = st["run"]
@@ -286,7 +300,7 @@ def to_coq(case, obs):
         h.append((((Z(st["t"]), S("k%d" % st["key"])), ([_val(x) for x in run["items"]], None if not run["end"] else Some(Z(run["end"])))), Z(dur)))
         items, end = st["res"]
         o.append((([_val(x) for x in items], None if end is None else Some(Z(end))), bool(st["executed"])))
-    return C("CIter", T, cond_coq(case["cond"]), h, o)
+    return C("CIter", T, cond_coq(case["cond"], case.get("cond_variant", 1)), h, o)
 
 
 def nontrivial(case, obs):
